@@ -77,11 +77,33 @@ func (r *Recomposer) RegisterUnmarshalerComposer(fun RecomposeAnyFunc) {
 	}
 }
 
+// fullTypeName is the registry key that identifies a type. Anonymous struct
+// types have neither a package path nor a name so the type string is used.
+func fullTypeName(rt reflect.Type) string {
+	if rt.Name() == "" {
+		return rt.String()
+	}
+	return rt.PkgPath() + "/" + rt.Name()
+}
+
+// composerFor returns the composer registered for exactly the type rt. The
+// short name alone is not enough, types from different packages can share it
+// and all anonymous struct types have an empty name.
+func (r *Recomposer) composerFor(rt reflect.Type) *composer {
+	if c := r.composers[rt.Name()]; c != nil && c.rtype == rt {
+		return c
+	}
+	if c := r.composers[fullTypeName(rt)]; c != nil && c.rtype == rt {
+		return c
+	}
+	return nil
+}
+
 func (r *Recomposer) registerComposer(rt reflect.Type, fun RecomposeFunc) (*composer, error) {
 	if rt.Kind() == reflect.Ptr {
 		rt = rt.Elem()
 	}
-	full := rt.PkgPath() + "/" + rt.Name()
+	full := fullTypeName(rt)
 	// TBD could loosen this up and allow any type as long as a function is provided.
 	if rt.Kind() != reflect.Struct {
 		return nil, fmt.Errorf("only structs can be recomposed. %s is not a struct type", rt)
@@ -115,7 +137,7 @@ func (r *Recomposer) registerComposer(rt reflect.Type, fun RecomposeFunc) (*comp
 		case reflect.Array, reflect.Slice, reflect.Map, reflect.Ptr:
 			ft = ft.Elem()
 		}
-		if _, has := r.composers[ft.Name()]; has {
+		if r.composerFor(ft) != nil {
 			continue
 		}
 		_, _ = r.registerComposer(ft, nil)
@@ -127,7 +149,7 @@ func (r *Recomposer) registerAnyComposer(rt reflect.Type, fun RecomposeAnyFunc) 
 	if rt.Kind() == reflect.Ptr {
 		rt = rt.Elem()
 	}
-	full := rt.PkgPath() + "/" + rt.Name()
+	full := fullTypeName(rt)
 	if rt.Kind() != reflect.Struct {
 		return nil, fmt.Errorf("only structs can be recomposed. %s is not a struct type", rt)
 	}
@@ -406,7 +428,7 @@ func (r *Recomposer) recomp(v any, rv reflect.Value) {
 	case reflect.Struct:
 		vm, ok := (v).(map[string]any)
 		if !ok {
-			if c := r.composers[rv.Type().Name()]; c != nil && c.any != nil {
+			if c := r.composerFor(rv.Type()); c != nil && c.any != nil {
 				if val, err := c.any(v); err == nil {
 					if val == nil {
 						break
@@ -444,7 +466,7 @@ func (r *Recomposer) recomp(v any, rv reflect.Value) {
 			return
 		}
 		var im map[string]reflect.StructField
-		if c := r.composers[rv.Type().Name()]; c != nil {
+		if c := r.composerFor(rv.Type()); c != nil {
 			if c.fun != nil {
 				if val, err := c.fun(vm); err == nil {
 					vv := reflect.ValueOf(val)
